@@ -8,7 +8,8 @@ What is here is *only* a driver stand-in and a ledger; it contains no model of S
 * ``Ledger``                 every DBAPI connection ever opened (open / closed, ``txn_open``, isolation, autocommit,
                              ``opened_at``), a per-kind and a global call counter, the *fault plan* and the faults that fired
 * ``Clock``                  virtual, strictly increasing clock; ``install_clock()`` patches it into ``sqlalchemy.pool.base.time``
-* fault plan                 ``ledger.plan[(kind, n)] = "error" | "disconnect" | "plain"``: raise at the n-th call of ``kind``
+* fault plan                 ``ledger.plan[(kind, n)] = "error" | "disconnect" | "plain" | "base"``: raise at the n-th call of ``kind``
+                             ("plain": an Exception that is no DBAPI Error; "base": a BaseException that is no Exception)
                              (``kind == "*"``: at the n-th faultable DBAPI call of any kind).  The call has NO effect when it
                              raises, except ``close`` which the ledger counts as closed as soon as it is attempted (the pool
                              discards the connection whether or not close() succeeded, as ``Connection.invalidate`` documents).
@@ -78,7 +79,12 @@ class PlainFault(Exception):
     """a fault that is not a DBAPI Error at all (never classified, never wrapped as a DBAPIError by the pool)"""
 
 
-_EXC = {"error": OperationalError, "disconnect": DisconnectError, "plain": PlainFault}
+class BaseFault(BaseException):
+    """a fault that is not even an ``Exception`` (stands for KeyboardInterrupt / asyncio.CancelledError / GreenletExit / a gevent
+    Timeout arriving while the driver call is in progress); ``except Exception`` does not see it"""
+
+
+_EXC = {"error": OperationalError, "disconnect": DisconnectError, "plain": PlainFault, "base": BaseFault}
 
 
 # --------------------------------------------------------------------------------------------------------------- clock
@@ -263,6 +269,7 @@ class FakeConnection:
         self.txn_open = False
         self.isolation = DEFAULT_ISOLATION
         self.autocommit = False
+        self.readonly = False                    # a second session-level setting (cf. PostgreSQL READ ONLY), see FakeDialectRO
         self.savepoints = []
         self.statements = []
         self.opened_at = ledger.clock.time()
@@ -311,6 +318,11 @@ class FakeConnection:
         else:
             self.autocommit = False
             self.isolation = level
+
+    def set_readonly(self, value):
+        self._usable("set_readonly")
+        self.ledger.call("set_readonly", self)
+        self.readonly = bool(value)
 
     def __repr__(self):
         return f"C{self.id}"
@@ -382,9 +394,33 @@ class FakeDialect(default.DefaultDialect):
         return dbapi_conn.autocommit
 
 
+class _FakeReadOnlyCharacteristic(default.characteristics.ConnectionCharacteristic):
+    """a dialect-specific connection characteristic (execution option ``fakeverif_readonly``), shaped like
+    postgresql_readonly: forwarded to the driver connection, reset to False when the connection returns to the pool"""
+    transactional = True
+
+    def reset_characteristic(self, dialect, dbapi_conn):
+        dbapi_conn.set_readonly(False)
+
+    def set_characteristic(self, dialect, dbapi_conn, value):
+        dbapi_conn.set_readonly(value)
+
+    def get_characteristic(self, dialect, dbapi_conn):
+        return dbapi_conn.readonly
+
+
+class FakeDialectRO(FakeDialect):
+    """FakeDialect + one dialect-specific connection characteristic besides the two of DefaultDialect
+    (isolation_level, logging_token); used by checks/C24_bounded.py scope (2)"""
+    supports_statement_cache = True
+    connection_characteristics = FakeDialect.connection_characteristics.union(
+        {"fakeverif_readonly": _FakeReadOnlyCharacteristic()})
+
+
 def _register():
     from sqlalchemy.dialects import registry
     registry.register("fakeverif", "rtc.fakedbapi", "FakeDialect")
+    registry.register("fakeverifro", "rtc.fakedbapi", "FakeDialectRO")
 
 
 def make_engine(ledger, **kw):
@@ -392,6 +428,13 @@ def make_engine(ledger, **kw):
     from sqlalchemy import create_engine
     _register()
     return create_engine("fakeverif://", module=FakeDBAPI(ledger), **kw)
+
+
+def make_engine_ro(ledger, **kw):
+    """like make_engine, with FakeDialectRO (accepts the execution option ``fakeverif_readonly``)"""
+    from sqlalchemy import create_engine
+    _register()
+    return create_engine("fakeverifro://", module=FakeDBAPI(ledger), **kw)
 
 
 def make_pool(ledger, poolclass, **kw):
